@@ -383,6 +383,7 @@ func runC05(c *Ctx) error {
 		}
 		c05ReadLoopOutput(c, si, spec)
 	}
+	headerLengthSweep(c)
 	return nil
 }
 
